@@ -245,6 +245,15 @@ class DistinctCountCheck(AbstractCheck):
 
         # Build and test Python expression for validation.
         self._expression = DistinctCountCheck._COUNT_NAME + rule[column_where_field_name_ends:]
+        # The only name the expression may refer to is the count of the field; anything else is either a name
+        # that cannot be resolved or a Python function that has no business in a rule, for example exit().
+        for token_type, token_text, _, _, _ in generated_tokens(self._expression):
+            is_other_name = (token_type == tokenize.NAME) and (token_text != DistinctCountCheck._COUNT_NAME)
+            if is_other_name and token_text not in ("and", "or", "not", "in", "is", "if", "else", "True", "False", "None"):
+                raise errors.InterfaceError(
+                    "rule must only refer to the field to count but also refers to: %r" % token_text,
+                    self.location_of_rule,
+                )
         self._distinct_value_to_count_map = None
         self.reset()
         self._eval()
